@@ -139,6 +139,40 @@ fn failing_subject() -> (Ty, Val) {
     (env, Val::Rec(vec![Val::U(0xdead_beef), Val::Enum(1, vec![])]))
 }
 
+/// child: `threads` real threads released by a barrier, each doing the calls of `seq` (first use
+/// of every type happens under contention); prints "<thread> <hex>" per call
+pub fn race_child(seq: &str, threads: usize) -> i32 {
+    let u = std::sync::Arc::new(common::load());
+    let s = std::sync::Arc::new(subjects(&u));
+    let calls: Vec<usize> = seq.split(',').filter(|x| !x.is_empty()).map(|c| c.parse().expect("call index")).collect();
+    let barrier = std::sync::Arc::new(std::sync::Barrier::new(threads));
+    let mut hs = Vec::new();
+    for t in 0..threads {
+        let (u, s, barrier, calls) = (u.clone(), s.clone(), barrier.clone(), calls.clone());
+        hs.push(std::thread::spawn(move || {
+            barrier.wait();
+            // threads start at different calls so that encoders and decoders overlap
+            let mut out = Vec::new();
+            for k in 0..calls.len() {
+                let c = calls[(k + t) % calls.len()];
+                out.push((c, call(c, &u, &s)));
+            }
+            out
+        }));
+    }
+    for (t, h) in hs.into_iter().enumerate() {
+        match h.join() {
+            Ok(obs) => {
+                for (c, o) in obs {
+                    println!("{t} {c} {}", hex_full(&o));
+                }
+            }
+            Err(_) => println!("{t} PANIC"),
+        }
+    }
+    0
+}
+
 /// child: run the given sequence of calls in this fresh process, print one hex line per call
 pub fn seq_child(seq: &str) -> i32 {
     let u = common::load();
@@ -257,6 +291,43 @@ pub fn run(tier: &str, only: Option<String>) -> i32 {
         run.stats.merge(st);
     }
 
+    // (d) supplementary, SAMPLED (not exhaustive): real threads, free-running, first use of every
+    // type under contention, each sample in a fresh process
+    if run.only.is_none() {
+        let samples: Vec<usize> = (0..if thorough { 2000 } else { 200 }).collect();
+        let st = par_items(&samples, Some(bridge::rt::hang_limit()), &|_| {}, &|i: &usize, st: &mut Stats| {
+            let seqs = ["0,1,4,7", "1,0,7,4", "4,7,0,1,2,6", "7,0", "0,8,7"];
+            let seq = seqs[i % seqs.len()];
+            let mut ch = std::process::Command::new(&me)
+                .arg("C18-race")
+                .arg(seq)
+                .arg("8")
+                .stdout(std::process::Stdio::piped())
+                .stderr(std::process::Stdio::null())
+                .spawn()
+                .expect("spawn");
+            if bridge::rt::wait_with_timeout(&mut ch, std::time::Duration::from_secs(120)).is_none() {
+                st.violate("C18 free-running threads: process does not terminate".into(), format!("race:{seq}"), json!({}));
+                return;
+            }
+            let out = ch.wait_with_output().expect("output");
+            st.add("free_running_samples(supplementary, sampled)", 1);
+            for l in String::from_utf8_lossy(&out.stdout).lines() {
+                let p: Vec<&str> = l.split(' ').collect();
+                let ok = p.len() == 3 && p[1].parse::<usize>().map(|c| unhex(p[2]) == exp[c]).unwrap_or(false);
+                if !ok {
+                    st.violate(
+                        format!("C18 free-running threads: call '{}' returned something else under contention", p.get(1).and_then(|c| c.parse::<usize>().ok()).map(|c| CALL_NAMES[c]).unwrap_or("?")),
+                        format!("race:{seq}"),
+                        json!({"line": l.chars().take(200).collect::<String>(), "sequence": seq, "threads": 8}),
+                    );
+                    return;
+                }
+            }
+        });
+        run.stats.merge(st);
+    }
+
     // (a) schedules
     let mut machinery_note: Option<String> = None;
     let vsched = std::env::var("VSCHED_BIN").ok().filter(|s| !s.is_empty());
@@ -350,6 +421,7 @@ pub fn run(tier: &str, only: Option<String>) -> i32 {
     run.stats.add("call_sequences_in_fresh_processes", seqs.len() as u64);
     run.rule = format!("(a) every interleaving (shuttle DFS, no preemption bound) of 2{} threads each doing one of 7 calls, under three hook filters (string/ref tables; record open/finish and context creation; field writes/reads), metadata statics initialised under contention in every schedule; (b) all {} sequences of depth <= {} over 9 calls (one of which fails half-way through a record), each in a fresh process; (c) every value of the universe encoded twice from the same instance. Oracle: every call returns what it returns alone and what the reference model prescribes. Non-trivial = schedules with >= 2 threads, sequences with >= 2 calls.", if thorough { " and 3" } else { "" }, seqs.len(), depth);
     run.bounds = json!({"threads": if thorough { 3 } else { 2 }, "sequence_depth": depth});
+    run.extra.insert("supplementary_sampled_part".into(), json!("(d) 200 / 2000 fresh processes, 8 free-running OS threads each released by a barrier; this part SAMPLES schedules of the operating system and is not part of the exhaustive claim"));
     run.assumptions = vec![
         "interleavings are at the granularity of scheduling points: shuttle lazy_static accesses of derived metadata, desert_verif hook points, spawn/join".into(),
         "std::sync::Once under lazy_static is replaced by shuttle's model for derived metadata (trusted); EMPTY_ADT_METADATA keeps the real lazy_static".into(),
